@@ -40,7 +40,7 @@ CHECKS = {
    "Trusts: the fingerprint covers the observable state the property lists; fork of an import-only process == fresh interpreter (cross-checked on a sample each batch); hash seed, sympy cache size and ASLR are held equal between history and reference. CPython, sympy, qiskit are real; only the ipykernel marker module and a temp directory are stubs.",
    "deterministic simulation: seeded API-operation histories with fault injection, reference-model oracles"),
  "C08": chk("C08", "DESIGN.md §4, §10",
-   "Seeded bind histories under the simulator: 1-5 unbound functions (31 typed templates whose meaning is plain Python, over bool / Qint / Qfixed / Qchar / Qlist / Qmatrix / nested Tuple parameters; corpus programs and one-mutation near-twins of them with arguments re-annotated as parameters; from source strings or real defs; with and without defs=) are bound 3-24 times, repeating and alternating values, keyword orders, value forms (tuples, lists, one-shot iterators) and objects, with wrong-arity / unknown-keyword / out-of-range binds and cache flushes, collections and interrupts injected inside bind(). At every bind: B0 bind rejects only what cannot be specialised by hand either; B2 the exhaustive truth table equals that of the program with the assignments prepended by hand and compiled the ordinary way (arbitrated by Python / the typed-argument form); B1 it equals plain Python's value (generated functions), with a diagnosis that separates the two open known findings (declared Qint / Qfixed type dropped) from everything else; B3 the unbound object and its callees are unaltered; B4 the same bind gives the same result wherever it is made and the same as a fresh unbound object bound once; B5 the classical function the bound object carries (f()) is the Python function with the parameters set. B6 the bound function's compiled circuit, run classically on every basis input, computes what the circuit of the hand-built specialisation compiled with the same options computes (differential: a circuit/table disagreement both share is the compiler's, C02, and is only counted). A clean batch is evidence, not proof.",
+   "Seeded bind histories under the simulator: 1-5 unbound functions (32 typed templates whose meaning is plain Python, over bool / Qint / Qfixed / Qchar / Qlist / Qmatrix / nested Tuple parameters; corpus programs and one-mutation near-twins of them with arguments re-annotated as parameters; from source strings or real defs; with and without defs=) are bound 3-24 times, repeating and alternating values, keyword orders, value forms (tuples, lists, one-shot iterators, lazily built nested rows, one object for two parameters) and objects, with wrong-arity / unknown-keyword / out-of-range binds and cache flushes, collections and interrupts injected inside bind(). At every bind: B0 bind rejects only what cannot be specialised by hand either; B2 the exhaustive truth table equals that of the program with the assignments prepended by hand and compiled the ordinary way (arbitrated by Python / the typed-argument form); B1 it equals plain Python's value (generated functions), with a diagnosis that separates the two open known findings (declared Qint / Qfixed type dropped) from everything else; B3 the unbound object and its callees are unaltered; B4 the same bind gives the same result wherever it is made and the same as a fresh unbound object bound once; B5 the classical function the bound object carries (f()) is the Python function with the parameters set. B6 the bound function's compiled circuit, run classically on every basis input, computes what the circuit of the hand-built specialisation compiled with the same options computes (differential: a circuit/table disagreement both share is the compiler's, C02, and is only counted). A clean batch is evidence, not proof.",
    "Trusts: plain-Python evaluation on ints/bools/floats/characters/tuples as the meaning of the generated programs (templates use only operators whose Python value is the meaning at every width); exhaustive tables up to 8 input bits (12 for the typed-argument form used in the diagnosis). Two open known findings (declared Qint width / declared Qfixed type dropped by bind) are matched by their diagnosis only; every other disagreement is a violation.",
    "deterministic simulation: seeded bind histories with fault injection, differential + Python-value oracles"),
  "C14": chk("C14", "DESIGN.md §5",
